@@ -87,6 +87,11 @@ CHECKS["C20"] = ("exploration",
   "53 directed cases in the quick tier (columns, rows, distinct strings through insert and through create_table, table / column / stream name lengths), ~100 in thorough. This is needle search by construction: random generation would not reach 65,536 rows or strings.",
   "Trusted: the independent encoder for the near-full string pools (self-checked by decoding: exactly N entries). For name lengths the property gives no number, so the oracle there is only Ok => round trip, Err => unchanged.",
   "DESIGN.md section 4, C20")
+CHECKS["C02"] = ("exploration",
+  "format-level generation (proptest strategies over an abstract database) written by an independent encoder of the MSI format; differential oracle: Package::open + API snapshot == abstract database; then API changes, save, and independent decoding of the result",
+  "3,000 (100,000) generated databases covering both reference widths, holes, duplicates, over-counts, long strings, references above 65,535, all code-page ids including 0, up to 32 columns in any order, width-1 integers, unsorted rows, absent _Validation, arbitrary property-set layouts, all CLSIDs (feature counts in the evidence).",
+  "Trusted: the independent encoder/decoder (fmt.rs, enc.rs; round-trip self-tests and literal fixtures) and the cfb crate. Only well-formed inputs are generated.",
+  "DESIGN.md section 4, C02")
 NOT_YET = {}
 
 def main():
